@@ -72,9 +72,15 @@ def gen_cases(rng, tier):
                     for scan_at in ([None] + list(range(1, n + 1)) if n <= 3 else [None, rng.randint(1, n)]):
                         ops = ["agg new %d %d" % (A, I)]
                         cnt = 0
+                        # the two nodes need not list the fields of their records in the same order: in some cases the
+                        # destination node's (or every) record is handed over with its elements permuted
+                        permute = rng.choice([None, None, "D", "all"])
                         for j, side in enumerate(order):
                             cnt += 1
-                            ops += [record(kind, side, 1, cnt, extras), "agg dump"]
+                            rec = record(kind, side, 1, cnt, extras)
+                            if permute == "all" or permute == side:
+                                rec += " p%d" % rng.randrange(1, 1 << 30)
+                            ops += [rec, "agg dump"]
                             if scan_at is not None and j + 1 == scan_at:
                                 # three scans at the active deadline: retries then drop for unready flows
                                 for _ in range(3):
